@@ -7,4 +7,10 @@ var vpHarnesses = map[string]func(){
 	"VP_Smoke":             VP_Smoke,
 	"VP_C02_Commit":        VP_C02_Commit,
 	"VP_C03_Step":          VP_C03_Step,
+	"VP_C04_Add":           VP_C04_Add,
+	"VP_C04_Rm":            VP_C04_Rm,
+	"VP_C04_ReAdd":         VP_C04_ReAdd,
+	"VP_C08_Reset":         VP_C08_Reset,
+	"VP_C09_Restore":       VP_C09_Restore,
+	"VP_C09_RestoreStaged": VP_C09_RestoreStaged,
 }
